@@ -13,6 +13,8 @@ structure DState where
   sigs : List (Bytes × Bytes × Bytes)        -- (pk, msg, sig) triples that verify
   scrypts : List (Bytes × Bytes × Bytes)     -- (password, salt, out) for the real scrypt
   states : List (String × CoinState)
+  node : Node := ⟨⟨CoinState.empty, [], none⟩, [], [], [], 0⟩
+  cand : Option (CoinState × Summary × Nat × List CTx) := none
 
 def defaultParams : Params := {
   maxSashimi := 2099999986350000, maxBlockSize := 200000, maxFutureBlockTime := 30,
@@ -118,6 +120,7 @@ def errKind : Err → String
 def setParam (p : Params) (name : String) (v : Int) : Option Params :=
   let n := v.toNat
   match name with
+  | "ibdValidationSkip" => some { p with ibdValidationSkip := n }
   | "retargetInterval" => some { p with retargetInterval := n }
   | "retargetTimespan" => some { p with retargetTimespan := n }
   | "maxKnownHeight" => some { p with maxKnownHeight := v }
@@ -153,6 +156,75 @@ def flipsCmd (C : Crypto) (P : Params) (cs : CoinState) (bs : Bytes) (now : Int)
   let dec := (cls.filter (· != 'u')).length
   s!"dec={dec} acc={if acc.isEmpty then "-" else String.intercalate "," acc} " ++
   s!"tdec={if tacc.isEmpty then "-" else String.intercalate "," tacc} dd={short (sha256 (String.ofList cls).toUTF8.toList)}"
+
+/-! ### node observables -/
+
+def outKind (C : Crypto) : Out → String
+  | .block b r => s!"B:{short (b.id C)}:{if r = 0 then 0 else 1}"
+  | .tx t => s!"T:{short (t.id C)}"
+  | .inventory ids _ => s!"INV:{ids.length}"
+  | .getData id => s!"GD:{short id}"
+  | .getBlocks l => s!"GB:{l.length}"
+  | .hello => "HELLO"
+  | .getPeers => "GP"
+  | .peers => "PEERS"
+
+def nodeDigest (C : Crypto) (n : Node) : String :=
+  let pool := String.intercalate "," (n.mgr.pool.map fun t => short (t.id C))
+  let wbuf := String.intercalate "," (n.wbuf.map fun b => short (b.id C))
+  let disk := String.intercalate "," ((sortBytes (n.disk.map (·.id C))).map short)
+  let lv := match n.mgr.lastValid with
+    | some cs => (match cs.current with | some h => short h | none => "none")
+    | none => "none"
+  let peers := String.intercalate ";" (n.peers.map fun p =>
+    s!"{if p.open_ then 1 else 0}{if p.helloReceived then 1 else 0}[" ++
+      String.intercalate "," (p.outbox.map (outKind C)) ++ "]")
+  s!"{stateDigest C n.mgr.coinstate false} lv={lv} pool={pool} wbuf={wbuf} disk={disk} peers={peers}"
+
+def nodeStep (d : DState) (C : Crypto) (args : List String) : DState × String :=
+  let n := d.node
+  match args with
+  | ["new", st, nonce] =>
+    let cs := d.getState st
+    let disk := cs.blocks.values.reverse
+    ({ d with node := ⟨⟨cs, [], some cs⟩, [], disk, [], nonce.toNat!⟩ }, "ok")
+  | ["peer", act, outg] =>
+    let a := act == "1"
+    ({ d with node := { n with peers := n.peers ++ [⟨true, outg == "1", a, a, [], false, []⟩] } }, "ok")
+  | ["block", c, r, blk, now] =>
+    (match Block.ofBytes C (hx blk), c.toNat?, r.toNat?, now.toInt? with
+      | some b, some c, some r, some t =>
+        let (n', e) := handleBlockReceived C d.params n c r b t
+        ({ d with node := n' }, match e with | none => "ret" | some _ => "exc")
+      | _, _, _, _ => (d, "bad-op"))
+  | ["tx", _c, txh] =>
+    (match decTx C.sha256d (hx txh) with
+      | some (t, _) =>
+        let (n', e) := handleTxReceived C d.params n t
+        ({ d with node := n' }, match e with | none => "ret" | some _ => "exc")
+      | none => (d, "bad-op"))
+  | ["setstate", st, v] =>
+    ({ d with node := { n with mgr := setCoinstate C n.mgr (d.getState st) (v == "1") } }, "ok")
+  | ["getstate", st] => (d.putState st n.mgr.coinstate, "ok")
+  | ["cand", pk, clock, nonce] =>
+    (match clock.toNat?, nonce.toNat? with
+      | some cl, some nc =>
+        (match minerCandidate C d.params n.mgr (hx pk) cl nc with
+          | .ok (s, h, txs) =>
+            ({ d with cand := some (n.mgr.coinstate, s, h, txs) },
+              s!"ok {toHex (encSummary s)} {h} " ++ String.intercalate "," (txs.map fun t => short (t.id C)))
+          | .error e => (d, "err " ++ errKind e))
+      | _, _ => (d, "bad-op"))
+  | ["found", sh, now] =>
+    (match d.cand, now.toInt? with
+      | some (cs, s, h, txs), some t =>
+        let ((n', e), b) := minerFound C d.params n cs s h txs (hx sh) t
+        ({ d with node := n' },
+          (match e with | none => "ret" | some _ => "exc") ++ " " ++
+          (match b with | some b => toHex (encBlock b) | none => "nosolution"))
+      | _, _ => (d, "bad-op"))
+  | ["digest"] => (d, nodeDigest C n)
+  | _ => (d, "bad-op")
 
 def step (d : DState) (line : String) : DState × String :=
   let C := d.crypto
@@ -192,6 +264,7 @@ def step (d : DState) (line : String) : DState × String :=
     (d, match now.toInt? with
       | some t => flipsCmd C d.params (d.getState name) (hx blk) t
       | none => "bad-op")
+  | "node" :: args => nodeStep d C args
   | ["p", name, v] =>
     (match v.toInt? with
       | some k => (match setParam d.params name k with
@@ -234,5 +307,5 @@ partial def loop (h : IO.FS.Stream) (out : IO.FS.Stream) (d : DState) : IO Unit 
 
 def main : IO Unit := do
   let out ← IO.getStdout
-  loop (← IO.getStdin) out ⟨defaultParams, [], [], []⟩
+  loop (← IO.getStdin) out { params := defaultParams, sigs := [], scrypts := [], states := [] }
   out.flush
